@@ -4,6 +4,8 @@ CONSTANTS
   Algo = "asis"
   SeedCopyreg = "live"
   InitGuard = FALSE
+  SharedCtx = FALSE
+  CtxCopy = TRUE
   Scns = {}
 PROPERTY Live_Terminates
 CHECK_DEADLOCK FALSE
